@@ -32,6 +32,14 @@ def run(tier, seed, args):
             f.write(json.dumps(p) + "\n")
     tp = os.path.join(wd, "c17.trace.ndjson")
     vlib.harness(exe, ["c17-run", "--progs", pp, "--depth", 3 if deep else 2, "--out", tp])
+    # transient device faults between operations (one failing device operation, short transfers): appended to the same trace
+    tp2 = os.path.join(wd, "c17t.trace.ndjson")
+    pp2 = os.path.join(wd, "files_t.ndjson")
+    with open(pp2, "w") as f:
+        for p in files[1:2] + (files[2:3] if deep else []):
+            f.write(json.dumps(p) + "\n")
+    vlib.harness(exe, ["c17-transient", "--progs", pp2, "--out", tp2])
+    open(tp, "a").write(open(tp2).read()); os.remove(tp2)
     r = vlib.tlc_trace("Trace_C17", tp, os.path.join(wd, "c17.tlc.out"), focus=("C17",), cont=True, timeout=3000)
     if not r["accepted"]:
         raise vlib.ToolError(f"Trace_C17 did not consume the trace: {r}")
